@@ -11,6 +11,8 @@ pub mod register;
 pub mod rust;
 mod step;
 mod utils;
+#[cfg(feature = "verif")]
+pub mod verif;
 pub mod variable;
 mod watchpoint;
 
